@@ -1374,6 +1374,20 @@ func (a *Agent) addCandidate(ctx context.Context, cand Candidate, candidateConn 
 	}
 
 	return a.loop.Run(ctx, func(context.Context) {
+		// The task can be accepted although the gather cycle was canceled (Restart)
+		// after the check above: a canceled cycle must not contribute candidates.
+		if ctx.Err() != nil {
+			a.log.Debugf("Ignore candidate of a canceled gather cycle: %s", cand)
+			if err := cand.close(); err != nil {
+				a.log.Warnf("Failed to close candidate of a canceled gather cycle: %v", err)
+			}
+			if err := candidateConn.Close(); err != nil {
+				a.log.Warnf("Failed to close candidate connection of a canceled gather cycle: %v", err)
+			}
+
+			return
+		}
+
 		set := a.localCandidates[cand.NetworkType()]
 		for _, candidate := range set {
 			if candidate.Equal(cand) {
